@@ -84,8 +84,20 @@ def base_streams():
           # a protocol error is not the end of the log: the client's teardown follows on the same connection
           _m(T + 1000, False, 'wl_display', 1, 'error', [['obj', 'wl_display', 1], ['int', 1], ['str', 'invalid arguments for wl_surface@4.attach']]),
           _m(T + 1100, True, 'wl_surface', 4, 'destroy', []),
-          _m(T + 1200, True, 'wl_display', 1, 'sync', [['new', 'wl_callback', 5]])]
+          _m(T + 1200, True, 'wl_display', 1, 'sync', [['new', 'wl_callback', 5]]),
+          # more than a minute of silence, then the answer
+          _m(T + 75000000, False, 'wl_callback', 5, 'done', [['int', 9]]),
+          _m(T + 75000100, False, 'wl_display', 1, 'delete_id', [['int', 5]])]
     streams['s6_mid_late_registry_newest_messages'] = [wlprint.render(m, 'mid') for m in s6]
+    # libwayland's stamp is a 32-bit microsecond counter: an object created before it wraps and deleted after
+    W = 2 ** 32
+    s7 = [_m(W - 300000, True, 'wl_display', 1, 'get_registry', [['new', 'wl_registry', 2]]),
+          _m(W - 200000, True, 'wl_display', 1, 'sync', [['new', 'wl_callback', 3]]),
+          _m(W - 100000, False, 'wl_registry', 2, 'global', [['int', 1], ['str', 'wl_shm'], ['int', 1]]),
+          _m(100000, False, 'wl_callback', 3, 'done', [['int', 1]]),
+          _m(200000, False, 'wl_display', 1, 'delete_id', [['int', 3]]),
+          _m(300000, True, 'wl_display', 1, 'sync', [['new', 'wl_callback', 3]])]
+    streams['s7_old_stamp_wraps'] = [wlprint.render(m, 'old') for m in s7]
     return streams
 
 
